@@ -7,7 +7,7 @@ d = json.load(open(sys.argv[1])); pid = sys.argv[2]
 hdr = ('From LC Require Import Lib.Bytes Model.MountInfo Model.FsTree Model.Kernel Model.Layers Cases.LC Cases.%s.\n'
        'Open Scope string_scope.\n' % pid + driver.PACK_HEADER)
 body = ('Definition c : LC.case := %s.\n'
-        'Fixpoint per (w : LC.wobs) (ss : list LC.step) : list bool := match ss with [] => [] | s :: r => %s.step_spec (LC.c_cfg c) w s :: per (LC.after w s) r end.\n'
+        'Fixpoint per (w : LC.wobs) (ss : list LC.step) : list bool := match ss with [] => [] | s :: r => %s.step_spec (LC.c_cfg c) w (LC.view_of_obs w s) :: per (LC.after w s) r end.\n'
         'Eval vm_compute in (LC.diag c, per (LC.w0 c) (LC.c_steps c)).\n') % (driver.pack(d['coq_case']), pid)
 os.makedirs(os.path.join(driver.RUN, 'diag'), exist_ok=True)
 f = os.path.join(driver.RUN, 'diag', 's.v')
